@@ -78,6 +78,30 @@ class Cond:
         return self.s
 
 
+class Flg:
+    """a TrajFlag value: Lean expression of type Model.Flags"""
+    def __init__(self, s):
+        self.s = s
+
+
+class FlagConst:
+    def __init__(self, field):
+        self.field = field
+
+
+class NoneV:
+    pass
+
+
+class OptV:
+    """an optional record: Lean expression of an Option type"""
+    def __init__(self, s):
+        self.s = s
+
+
+FLAG_FIELDS = {'ZERO_UP': 'zeroUp', 'ZERO_DOWN': 'zeroDown', 'MACH': 'mach', 'RANGE': 'range', 'APEX': 'apex'}
+
+
 class StrC:
     def __init__(self, v):
         self.v = v
@@ -115,6 +139,9 @@ class Evaluator:
         self.funcs = {}
         self.notes = []
         self.guards = []
+        self.fuel = 'skipFuel'
+        self.lets = []
+        self.compose = set()
         for mod in modules.values():
             for n in mod.body:
                 if isinstance(n, ast.ClassDef):
@@ -155,7 +182,9 @@ class Evaluator:
         if isinstance(e, ast.Constant):
             if isinstance(e.value, str):
                 return StrC(e.value)
-            if isinstance(e.value, bool) or e.value is None:
+            if e.value is None:
+                return NoneV()
+            if isinstance(e.value, bool):
                 raise Unsupported(f'constant {e.value!r}')
             if isinstance(e.value, int):
                 return IntC(e.value)
@@ -172,6 +201,13 @@ class Evaluator:
                 return env[d]
             if d == 'math.pi':
                 return Num('Fn.pi')
+            if d and d.startswith('TrajFlag.'):
+                n = d.split('.', 1)[1]
+                if n == 'NONE':
+                    return Flg('fNONE')
+                if n in FLAG_FIELDS:
+                    return FlagConst(FLAG_FIELDS[n])
+                raise Unsupported(d)
             # class-level constant, e.g. Atmo.cLowestTempC
             if isinstance(e.value, ast.Name) and e.value.id in self.classes:
                 cv = self.class_const(e.value.id, e.attr)
@@ -236,6 +272,14 @@ class Evaluator:
         if isinstance(op, ast.LShift) and isinstance(a, Qty):
             return a            # `q << unit` re-labels the display unit, the magnitude is untouched (C13)
         b = self.ev(e.right, env)
+        if isinstance(a, Flg):
+            if isinstance(op, ast.BitOr) and isinstance(b, FlagConst):
+                return Flg(f'{{ {a.s} with {b.field} := true }}')
+            if isinstance(op, ast.BitAnd) and isinstance(b, FlagConst):
+                return Cond('bool', f'({a.s}).{b.field}')
+            if isinstance(op, ast.BitAnd) and isinstance(b, Flg):
+                return Cond('bool', f'(Flags.anyCommon ({a.s}) ({b.s}))')
+            raise Unsupported('flag operator')
         if isinstance(a, Vec) or isinstance(b, Vec):
             name = {ast.Add: '__add__', ast.Sub: '__sub__', ast.Mult: '__mul__'}.get(type(op))
             if name is None:
@@ -278,6 +322,27 @@ class Evaluator:
             if not (is_num or is_vec):
                 raise Unsupported('isinstance of ' + type(v).__name__)
             return Cond('static', (is_num and ('int' in names or 'float' in names)) or (is_vec and 'Vector' in names))
+        if isinstance(e, ast.Call) and self.dotted(e.func) == 'get_debug' and not e.args:
+            return Cond('static', False)       # debug logging: no effect on the computation
+        if isinstance(e, ast.Call) and self.dotted(e.func) == 'bool' and len(e.args) == 1:
+            return self.cond(e.args[0], env)
+        if isinstance(e, ast.Compare) and len(e.ops) == 2:
+            # a OP1 b OP2 c  ==  (a OP1 b) and (b OP2 c)
+            c1 = self.cond(ast.Compare(left=e.left, ops=[e.ops[0]], comparators=[e.comparators[0]]), env)
+            c2 = self.cond(ast.Compare(left=e.comparators[0], ops=[e.ops[1]], comparators=[e.comparators[1]]), env)
+            if c1.kind == 'prop' and c2.kind == 'prop':
+                return Cond('prop', f'({c1.s} ∧ {c2.s})')
+            raise Unsupported('chained comparison')
+        if isinstance(e, ast.Compare) and len(e.ops) == 1 and isinstance(e.ops[0], (ast.Is, ast.IsNot)):
+            a, b = self.ev(e.left, env), self.ev(e.comparators[0], env)
+            if not isinstance(b, NoneV):
+                raise Unsupported('`is` other than against None')
+            pos = isinstance(e.ops[0], ast.Is)
+            if isinstance(a, NoneV):
+                return Cond('static', pos)
+            if isinstance(a, OptV):
+                return Cond('bool', f'({a.s}).isNone' if pos else f'({a.s}).isSome')
+            return Cond('static', not pos)
         if isinstance(e, ast.Compare) and len(e.ops) == 1:
             a, b = self.ev(e.left, env), self.ev(e.comparators[0], env)
             op = e.ops[0]
@@ -304,7 +369,9 @@ class Evaluator:
                 return Cond('prop', f'{x} ≤ {y}')
             raise Unsupported('comparison')
         if isinstance(e, ast.BoolOp):
-            cs = [self.truth(self.ev(v, env)) if not isinstance(v, (ast.Compare, ast.BoolOp)) else self.cond(v, env) for v in e.values]
+            cs = [self.cond(v, env) for v in e.values]
+            if any(c.kind == 'static' for c in cs):
+                raise Unsupported('static operand of and/or')
             if all(c.kind == 'prop' for c in cs):
                 j = ' ∧ ' if isinstance(e.op, ast.And) else ' ∨ '
                 return Cond('prop', '(' + j.join(c.s for c in cs) + ')')
@@ -327,7 +394,28 @@ class Evaluator:
             if x == y:
                 return Num(x)
             return Num(f'(if {c.as_if()} then {x} else {y})')
+        if isinstance(a, Flg) and isinstance(b, Flg):
+            if a.s == b.s:
+                return a
+            return Flg(f'(if {c.as_if()} then {a.s} else {b.s})')
+        if isinstance(a, (NoneV, OptV, Obj)) and isinstance(b, (NoneV, OptV, Obj)):
+            x, y = self.opt(a), self.opt(b)
+            if x == y:
+                return a
+            return OptV(f'(if {c.as_if()} then {x} else {y})')
         raise Unsupported(f'cannot merge {type(a).__name__} / {type(b).__name__} over a condition')
+
+    def opt(self, v):
+        """Lean text of an optional BaseTrajData"""
+        if isinstance(v, NoneV):
+            return 'none'
+        if isinstance(v, OptV):
+            return v.s
+        if isinstance(v, Obj) and v.cls == 'BaseTrajData' and set(v.fields) == {'time', 'position', 'velocity', 'mach'}:
+            f = v.fields
+            v3 = lambda w: f'⟨{num(w.x)}, {num(w.y)}, {num(w.z)}⟩'   # noqa: E731
+            return f'(some (Model.BaseTraj.mk {num(f["time"])} {v3(f["position"])} {v3(f["velocity"])} {num(f["mach"])}))'
+        raise Unsupported('optional value of an unknown record')
 
     # ---------------------------------------------------------------- calls
     MATH1 = {'sqrt': 'Fn.sqrt', 'exp': 'Fn.exp', 'sin': 'Fn.sin', 'cos': 'Fn.cos', 'tan': 'Fn.tan', 'atan': 'Fn.atan', 'fabs': 'Fn.abs'}
@@ -411,7 +499,7 @@ class Evaluator:
             raise Unsupported(f'{cls}.{name}')
         return self.apply(m, selfv, args, {}, env, cls)
 
-    def apply(self, fdef, selfv, args, kw, env, cls, scope=None):
+    def apply(self, fdef, selfv, args, kw, env, cls, scope=None, allow_none=False):
         """inline a call: bind the parameters, execute the body symbolically (`scope`: the enclosing scope of a nested def)"""
         params = [a.arg for a in fdef.args.args]
         deco = {self.dotted(d) for d in fdef.decorator_list}
@@ -442,7 +530,12 @@ class Evaluator:
                     raise Unsupported(f'missing argument {p} of {fdef.name}')
                 new[p] = self.ev(defaults[j], {})
         r = self.block(fdef.body, new)
-        if r is None:
+        if selfv == 'self':
+            # attribute stores made by the callee are stores on the caller's object
+            for k, v in new.items():
+                if k.startswith('self.') and k != 'self.__class__':
+                    env[k] = v
+        if r is None and not allow_none:
             raise Unsupported(f'{fdef.name} may fall off its end')
         return r
 
@@ -457,6 +550,22 @@ class Evaluator:
                     d = self.dotted(s.value.func) or ''
                     if d.startswith('warnings.') or d.startswith('logger.'):
                         continue
+                    if d.startswith('self.') and d.count('.') == 1 and env.get('self.__class__') == '_TrajectoryDataFilter' \
+                            and d[5:] in self.compose:
+                        # a state-transforming method that is translated on its own: applied to the current state, bound by `let`
+                        args = [self.ev(a, env) for a in s.value.args]
+                        name = f'f{len(self.lets) + 1}'
+                        at = ' '.join(f'⟨{num(a.x)}, {num(a.y)}, {num(a.z)}⟩' if isinstance(a, Vec) else num(a) for a in args)
+                        self.lets.append((name, f'filter_{d[5:]} {filter_state(env)} {at}'))
+                        for py, ln, kind in FILTER_FIELDS:
+                            env['self.' + py] = Flg(f'{name}.{ln}') if kind == 'flg' else vec(f'{name}.{ln}') if kind == 'vec' else Num(f'{name}.{ln}')
+                        continue
+                    if d.startswith('self.') and d.count('.') == 1 and 'self.__class__' in env:
+                        m = self.method(env['self.__class__'], d[5:])
+                        if m is not None:
+                            args = [self.ev(a, env) for a in s.value.args]
+                            self.apply(m, 'self', args, {}, env, env['self.__class__'], allow_none=True)
+                            continue
                 raise Unsupported('expression statement')
             if isinstance(s, ast.FunctionDef):
                 env[s.name] = Closure(s, env, env.get('self.__class__'))
@@ -529,6 +638,9 @@ class Evaluator:
                 return self.merge(c, r1, r2)
             if isinstance(s, (ast.Pass, ast.Assert)):
                 continue
+            if isinstance(s, ast.While):
+                self.while_loop(s, env)
+                continue
             if isinstance(s, ast.Try):
                 # `a / b` is the field division; the ZeroDivisionError handler is modelled by an explicit guard in the model
                 if not all(isinstance(h.type, ast.Name) and h.type.id == 'ZeroDivisionError' for h in s.handlers) or s.orelse or s.finalbody:
@@ -542,6 +654,40 @@ class Evaluator:
                 raise Unsupported('a reachable raise statement')
             raise Unsupported(f'statement {type(s).__name__}')
         return None
+
+    def while_loop(self, s, env):
+        """`while c(z): z = b(z)` for ONE loop-carried variable -> `whileF (fun z => c) (fun z => b) fuel z0` (fuel: a parameter of
+        the generated definition, as in the model; termination is not claimed here)"""
+        if s.orelse:
+            raise Unsupported('while/else')
+        tg = set()
+        for n in s.body:
+            if isinstance(n, ast.AugAssign):
+                t = n.target
+            elif isinstance(n, ast.Assign) and len(n.targets) == 1:
+                t = n.targets[0]
+            else:
+                raise Unsupported('statement in a while body')
+            d = self.dotted(t)
+            if d is None:
+                raise Unsupported('while body target')
+            tg.add(d)
+        if len(tg) != 1:
+            raise Unsupported('a while loop with several loop-carried variables')
+        var = tg.pop()
+        init = env.get(var)
+        if not isinstance(init, (Num, IntC)):
+            raise Unsupported('loop-carried variable is not a number')
+        e2 = dict(env)
+        e2[var] = Num('z')
+        c = self.cond(s.test, e2)
+        r = self.block(s.body, e2)
+        if r is not None:
+            raise Unsupported('return inside a while loop')
+        for k in e2:
+            if k != var and e2[k] is not env.get(k):
+                raise Unsupported('while body changes ' + k)
+        env[var] = Num(f'(whileF (fun z => {c.as_bool()}) (fun z => {num(e2[var])}) {self.fuel} {num(init)})')
 
     def assign(self, t, v, env):
         if isinstance(t, ast.Name):
@@ -719,6 +865,82 @@ def emit(ev, spec):
     return out
 
 
+FILTER_FIELDS = [('filter', 'filter', 'flg'), ('current_flag', 'currentFlag', 'flg'), ('seen_zero', 'seenZero', 'flg'),
+                 ('time_step', 'timeStep', 'num'), ('range_step', 'rangeStep', 'num'), ('time_of_last_record', 'timeOfLastRecord', 'num'),
+                 ('next_record_distance', 'nextRecordDistance', 'num'), ('previous_mach', 'prevMach', 'num'),
+                 ('previous_time', 'prevTime', 'num'), ('previous_position', 'prevPos', 'vec'), ('previous_velocity', 'prevVel', 'vec'),
+                 ('previous_v_mach', 'prevVMach', 'num'), ('look_angle', 'lookAngle', 'num')]
+
+
+def filter_env(extra):
+    env = {'self.__class__': '_TrajectoryDataFilter'}
+    for py, ln, kind in FILTER_FIELDS:
+        env['self.' + py] = Flg(f'f.{ln}') if kind == 'flg' else vec(f'f.{ln}') if kind == 'vec' else Num(f'f.{ln}')
+    env.update(extra)
+    return env
+
+
+def filter_state(env):
+    parts = []
+    for py, ln, kind in FILTER_FIELDS:
+        v = env.get('self.' + py)
+        if kind == 'flg':
+            if not isinstance(v, Flg):
+                raise Unsupported(f'filter field {py} is not a flag value')
+            parts.append(f'{ln} := {v.s}')
+        elif kind == 'vec':
+            if not isinstance(v, Vec):
+                raise Unsupported(f'filter field {py} is not a vector')
+            parts.append(f'{ln} := ⟨{num(v.x)}, {num(v.y)}, {num(v.z)}⟩')
+        else:
+            parts.append(f'{ln} := {num(v)}')
+    extra = {k for k in env if k.startswith('self.') and k != 'self.__class__'} - {'self.' + f[0] for f in FILTER_FIELDS}
+    if extra:
+        raise Unsupported(f'the recording filter has attributes the model does not know: {sorted(extra)}')
+    return '{ ' + ', '.join(parts) + ' }'
+
+
+# (lean name, python method, binders, extra environment, returns data?)
+FILTER_SPECS = [
+    ('filter_init', '__init__', '(flags : Model.Flags) (rangeStep : α) (pos vel : Model.Vec α) (timeStep : α)',
+     {'filter_flags': Flg('flags'), 'range_step': N('rangeStep'), 'initial_position': vec('pos'), 'initial_velocity': vec('vel'),
+      'time_step': N('timeStep')}, False, True),
+    ('filter_setup_seen_zero', 'setup_seen_zero', '(f : Model.TFilter α) (height barrelElevation lookAngle : α)',
+     {'height': N('height'), 'barrel_elevation': N('barrelElevation'), 'look_angle': N('lookAngle')}, False, False),
+    ('filter_clear_current_flag', 'clear_current_flag', '(f : Model.TFilter α)', {}, False, False),
+    ('filter_check_next_time', 'check_next_time', '(f : Model.TFilter α) (time : α)', {'time': N('time')}, False, False),
+    ('filter_check_mach_crossing', 'check_mach_crossing', '(f : Model.TFilter α) (velocity mach : α)',
+     {'velocity': N('velocity'), 'mach': N('mach')}, False, False),
+    ('filter_check_zero_crossing', 'check_zero_crossing', '(f : Model.TFilter α) (pos : Model.Vec α)', {'range_vector': vec('pos')}, False, False),
+    ('filter_should_record', 'should_record', "(f : Model.TFilter α) (skipFuel : Nat) (pos vel : Model.Vec α) (mach time : α)",
+     {'position': vec('pos'), 'velocity': vec('vel'), 'mach': N('mach'), 'time': N('time')}, True, False),
+]
+
+
+def emit_filter(ev, spec):
+    lname, meth, binders, extra, has_data, fresh = spec
+    m = ev.method('_TrajectoryDataFilter', meth)
+    if m is None:
+        raise Unsupported(f'_TrajectoryDataFilter.{meth} not found')
+    env = {'self.__class__': '_TrajectoryDataFilter'} if fresh else filter_env({})
+    env.update(extra)
+    ev.lets = []
+    ev.compose = {'check_zero_crossing', 'check_mach_crossing'} if meth == 'should_record' else set()
+    r = ev.block(m.body, env)
+    st = filter_state(env)
+    lets = ''.join(f'let {n} := {t}\n  ' for n, t in ev.lets)
+    ev.lets, ev.compose = [], set()
+    doc = f'/-- `_TrajectoryDataFilter.{meth}`: the state of the filter after the call'
+    if has_data:
+        if r is None:
+            raise Unsupported(f'{meth} returns nothing')
+        return (doc + ' and the returned record -/\n'
+                f'def {lname} {binders} : Model.TFilter α × Option (Model.BaseTraj α) :=\n  {lets}({st}, {ev.opt(r)})\n')
+    if r is not None:
+        raise Unsupported(f'{meth} returns a value')
+    return doc + f' -/\ndef {lname} {binders} : Model.TFilter α :=\n  {st}\n'
+
+
 def find_self_assign(ev, cls, meth, attr):
     m = ev.method(cls, meth)
     for n in ast.walk(m) if m else []:
@@ -779,7 +1001,9 @@ def generate(repo: Path) -> str:
     for spec in SPECS:
         out.append(emit(ev, spec))
     out.append(emit_step(ev))
-    out += ['end', '', 'def translated : List String := [' + ', '.join(f'"{s[0]}"' for s in SPECS) + ', "step"]', '', 'end BC.Gen.Src', '']
+    for spec in FILTER_SPECS:
+        out.append(emit_filter(ev, spec))
+    out += ['end', '', 'def translated : List String := [' + ', '.join(f'"{s[0]}"' for s in SPECS) + ', "step", ' + ', '.join(f'"{s[0]}"' for s in FILTER_SPECS) + ']', '', 'end BC.Gen.Src', '']
     return '\n'.join(out)
 
 
